@@ -1701,15 +1701,11 @@ impl<T: TypeConfig> RaftRoleState for LeaderState<T> {
                 .calculate_majority_matched_index(
                     self.current_term(),
                     self.commit_index(),
-                    self.match_index
+                    self.cluster_metadata
+                        .replication_targets
                         .iter()
-                        .filter(|(id, _)| {
-                            self.cluster_metadata.replication_targets.iter().any(|n| {
-                                n.id == **id
-                                    && n.role != d_engine_proto::common::NodeRole::Learner as i32
-                            })
-                        })
-                        .map(|(_, idx)| *idx)
+                        .filter(|n| n.role != d_engine_proto::common::NodeRole::Learner as i32)
+                        .map(|n| self.match_index.get(&n.id).copied().unwrap_or(0))
                         .collect(),
                 )
                 .is_some();
@@ -2992,14 +2988,14 @@ impl<T: TypeConfig> LeaderState<T> {
         let replication_targets = &self.cluster_metadata.replication_targets;
         let learner_role = d_engine_proto::common::NodeRole::Learner as i32;
 
-        // Only voter peers (non-Learner) contribute to the commit quorum.
-        let matched_ids: Vec<u64> = self
-            .match_index
+        // Only voter peers (non-Learner) contribute to the commit quorum. Every voter
+        // counts: one that has not acknowledged anything yet contributes match index 0,
+        // otherwise the median would be taken over the responders only and a leader
+        // could commit without a majority.
+        let matched_ids: Vec<u64> = replication_targets
             .iter()
-            .filter(|(id, _)| {
-                replication_targets.iter().any(|n| n.id == **id && n.role != learner_role)
-            })
-            .map(|(_, idx)| *idx)
+            .filter(|n| n.role != learner_role)
+            .map(|n| self.match_index.get(&n.id).copied().unwrap_or(0))
             .collect();
 
         let new_commit_index =
